@@ -60,7 +60,7 @@ def build(run):
             P, wf = sym_params(tc)
             y, y2 = xr.finsym("y"), xr.finsym("y2")
             h = P["height"]
-            valid = tc.valid(A, P)
+            valid = tc.valid(A, P) if tc.invertible is None else z3.And(tc.valid(A, P), tc.invertible(A, P))
             iny = lambda v: z3.And(v.v > 0, v.v < h.v)
             pre = wf + [valid, iny(y)]
             z, ex, calls, raises, fn, _ = run_membership(src, cls, ax, A, P, y, meth="tsukamoto")
